@@ -2,13 +2,14 @@
    backend; outputs = the first backend's outputs followed by the vector of equality flags (one per other backend).
    The model has a single definition per operation, which does not mention the backend: identical inputs give
    identical outputs on every backend iff each backend agrees with the model. *)
-From PV Require Import Base.MachineInt Model.Znx Model.Limbs Model.Flat Model.Ring Model.C08Run Model.C09Run Model.C07Run.
+From PV Require Import Base.MachineInt Model.Znx Model.Limbs Model.Flat Model.Ring Model.C08Run Model.C09Run Model.C07Run Model.C05Run.
 Open Scope Z_scope.
 
 Definition base_run10 (code : Z) (ps : list Z) (vs : list (list Z)) : option (list (list Z)) :=
   if (8000 <=? code) && (code <? 9000) then run_c08 code ps vs
   else if (9000 <=? code) && (code <? 10000) then run_c09 code ps vs
   else if (7000 <=? code) && (code <? 8000) then run_c07 code ps vs
+  else if (5000 <=? code) && (code <? 5100) then run_c05 code ps vs     (* HAL convolution layer *)
   else None.
 
 Definition run_c10 (code : Z) (ps : list Z) (vs : list (list Z)) : option (list (list Z)) :=
